@@ -43,7 +43,8 @@ def header_sig(ev):
         future = ev.get("tsc") in ("limit_plus", "far")
         what = ("future_time" if future else "ts_" + str(ev.get("tsc"))) if mut == "valid" else \
             (mut + ("+future_time" if future else ""))
-        return "header:wire:%s:%s:%s%s" % (ev.get("w"), what, ev.get("verdict"), (":opts=" + "+".join(rest)) if rest else "")
+        verdict = str(ev.get("verdict")) + ("+stored" if ev.get("verdict") != "accept" and any(ev.get("stored", [])) else "")
+        return "header:wire:%s:%s:%s%s" % (ev.get("w"), what, verdict, (":opts=" + "+".join(rest)) if rest else "")
     return "header:%s:%s:%s%s%s" % (ev.get("k"), mut, ev.get("verdict"), ":skip_pow" if ev.get("skip") else "",
                                     (":opts=" + "+".join(rest)) if rest else "")
 
@@ -62,7 +63,7 @@ def wire_plans(wd):
         print(r.out[-3000:])
         raise ToolError("Header.tla invariant %s violated inside the model (MC_Header_wire)" % r.invariant_violated)
     vlib.tlc_ok(r, "MC_Header_wire")
-    plans = sorted((json.loads(x) for x in r.printed("WPLAN")), key=lambda p_: (p_["mut"], p_["w"], p_["tsc"]))
+    plans = sorted((json.loads(x) for x in r.printed("WPLAN")), key=lambda p_: (p_["mut"] != "valid", p_["mut"], p_["w"], p_["tsc"]))   # the otherwise valid header first
     if len(plans) < 4 * 6 * 2 or len({p_["w"] for p_ in plans}) != 4 or len({p_["tsc"] for p_ in plans}) != 6:
         raise ToolError("MC_Header_wire emitted %d plans" % len(plans))
     pp = os.path.join(wd, "wplans.ndjson")
